@@ -58,6 +58,23 @@ QUICK_COMPRESSION_CONFIG = """features:
 """
 
 
+QUICK_TLS_CONFIG = """features:
+  versions:
+    - HTTP_VERSION_1
+    - HTTP_VERSION_2
+  protocols:
+    - PROTOCOL_CONNECT
+    - PROTOCOL_GRPC
+  codecs:
+    - CODEC_PROTO
+  compressions:
+    - COMPRESSION_IDENTITY
+  supportsTls: true
+  supportsTlsClientCerts: true
+  supportsH2c: true
+"""
+
+
 def build(repo, work, goenv):
     bindir = os.path.join(work, "bin")
     os.makedirs(bindir, exist_ok=True)
@@ -127,6 +144,15 @@ def matrix(unit, work, tier, seed, repo, goenv):
             ("reference-compressions/server", comp_conf, "server", "testing/referenceserver-known-failing.txt", "referenceserver"),
             ("reference-compressions/client", comp_conf, "client", "testing/referenceclient-known-failing.txt", "referenceclient"),
         ]
+    if tier == "quick":
+        # and a third one with TLS client certificates next to plain TLS and cleartext, one server at a time
+        tls_conf = os.path.join(work, "quick-tls-config.yaml")
+        open(tls_conf, "w").write(QUICK_TLS_CONFIG)
+        tls_extra = ["--max-servers", "1", "--run", "TLS Client Certs/**", "--run", "Basic/**", "--run", "Errors/**"]
+        runs += [
+            ("reference-tls-certs/server", tls_conf, "server", "testing/referenceserver-known-failing.txt", "referenceserver", tls_extra),
+            ("reference-tls-certs/client", tls_conf, "client", "testing/referenceclient-known-failing.txt", "referenceclient", tls_extra),
+        ]
     only = os.environ.get("VERIF_C01_ONLY")
     rep = {"evaluations": 0, "distinct_nontrivial": 0, "samples": [], "violations": [], "exhaustive": True, "outcomes": {}, "counters": {},
            "rule": "one evaluation = one (config case x embedded test case) permutation executed by the real binaries; all permutations of a run are distinct by name; non-trivial = it ran (has a verdict)",
@@ -138,11 +164,13 @@ def matrix(unit, work, tier, seed, repo, goenv):
             rep["violations"].append({"key": "reference-known-failing-not-empty:" + os.path.basename(f),
                                       "detail": "%s lists %d pattern(s); the reference implementations must pass everything" % (f, len(body)),
                                       "replay": {"file": f}})
-    for name, conf, mode, known, impl in runs:
+    for run_ in runs:
+        name, conf, mode, known, impl = run_[:5]
+        base_extra = list(run_[5]) if len(run_) > 5 else []
         if only and only not in name:
             continue
         confp = conf if os.path.isabs(conf) else os.path.join(repo, conf)
-        rc, out, err, secs = runner(bindir, repo, confp, mode, os.path.join(repo, known), impl)
+        rc, out, err, secs = runner(bindir, repo, confp, mode, os.path.join(repo, known), impl, extra=base_extra)
         res = parse(out)
         info = {"exit": rc, "wall_s": round(secs, 1), **{k: v for k, v in res.items() if k not in ("failed_names", "info_names")},
                 "known_failing_matched": len(res["info_names"])}
@@ -165,7 +193,7 @@ def matrix(unit, work, tier, seed, repo, goenv):
             still = []
             for i in range(0, len(remaining), 40):
                 chunk = remaining[i:i + 40]
-                extra = []
+                extra = [a for a in base_extra[:2] if base_extra[:1] == ["--max-servers"]]
                 for fn in chunk:
                     extra += ["--run", fn]
                 rc2, out2, err2, _s = runner(bindir, repo, confp, mode, os.path.join(repo, known), impl, extra=extra, timeout=1800)
@@ -180,7 +208,28 @@ def matrix(unit, work, tier, seed, repo, goenv):
                 rep["notes"].append("%s: re-run %d of the failing cases in isolation: %d of %d still fail" % (name, rnd + 1, len(still), len(remaining)))
             remaining = still
         persistent = remaining
-        if res["failed_names"] and not persistent:
+        healed = [fn for fn in dict.fromkeys(res["failed_names"]) if fn not in persistent]
+        if healed:
+            # They pass on their own. Either the machine was loaded (timing cases), or the failure
+            # depends on what ran before in the same processes (state carried across test cases).
+            # Run the whole invocation once more: what fails again in the full run is reported.
+            again = list(healed)
+            out3 = ""
+            for _round in range(2):
+                if not again:
+                    break
+                rc3, out3, err3, secs3 = runner(bindir, repo, confp, mode, os.path.join(repo, known), impl, extra=base_extra)
+                r3 = parse(out3)
+                again = [fn for fn in again if fn in (r3["failed_names"] or [])]
+            if again:
+                rep["notes"].append("%s: %d case(s) fail in three full runs but pass when run alone: order/history dependent" % (name, len(again)))
+                for fn in again[:5]:
+                    m = re.search(r"^FAILED: " + re.escape(fn) + r".*?(?=^FAILED: |^INFO: |^Total cases)", out3, flags=re.M | re.S)
+                    rep["violations"].append({"key": "failure-only-in-full-run:%s:%s" % (name, fn),
+                                              "detail": "%s: fails in three consecutive full runs, passes when run alone (depends on what ran before it in the same process): %s" % (name, (m.group(0) if m else fn)[:2000]),
+                                              "replay": dict(rp, test=fn)})
+            healed = [fn for fn in healed if fn not in again]
+        if res["failed_names"] and not persistent and healed:
             rep["notes"].append("%s: %d case(s) failed in the full run but passed when re-run in isolation (load-induced): %s" % (name, len(set(res["failed_names"])), sorted(set(res["failed_names"]))[:5]))
         for fn in persistent[:10]:
             m = re.search(r"^FAILED: " + re.escape(fn) + r".*?(?=^FAILED: |^INFO: |^Total cases)", out, flags=re.M | re.S)
